@@ -1,6 +1,8 @@
 CONSTANTS
-  MaxIn = 2
-  MaxOut = 2
+  NinSet <- SmallNin
+  NoutSet <- SmallNout
+  UnusedSets <- SmallUnused
+  ReqFilter <- NoFilter
   NPass = 3
 SPECIFICATION Spec
 INVARIANT PositionalStable
